@@ -28,6 +28,9 @@ pub struct Call {
 
 #[derive(Clone, Debug, Serialize, Deserialize)]
 pub enum Source {
+    /// a movie whose first chunk offset / a sample size of one track is patched so that some
+    /// samples lie beyond the end of the file (their reads fail at the I/O level, after the seek)
+    Patched(Movie, u16, bool),
     Movie(Movie),
     Mux(MuxCase),
     Canned(String),
@@ -42,6 +45,22 @@ pub struct Case {
 
 fn bytes_of(src: &Source) -> Option<Vec<u8>> {
     match src {
+        Source::Patched(m, which, offset_kind) => {
+            let mut bytes = build(m).bytes;
+            let boxes = crate::refmp4::parse::walk_lenient(&bytes);
+            let mut fields = Vec::new();
+            crate::refmp4::parse::field_map(&bytes, &boxes, &mut fields);
+            use crate::refmp4::parse::FieldKind;
+            let cands: Vec<&crate::refmp4::parse::Field> = fields.iter().filter(|f| if *offset_kind { f.kind == FieldKind::Offset && (&f.boxtype == b"stco" || &f.boxtype == b"co64") } else { f.kind == FieldKind::Length && &f.boxtype == b"stsz" && f.off >= 16 }).collect();
+            if !cands.is_empty() {
+                let f = cands[(*which as usize * cands.len()) >> 16];
+                let v = if *offset_kind { bytes.len() as u64 - 1 } else { 0x00ff_ffff };
+                if crate::adv::read_field(&bytes, f) != 0 || *offset_kind {
+                    crate::adv::write_field(&mut bytes, f, v);
+                }
+            }
+            Some(bytes)
+        }
         Source::Movie(m) => Some(build(m).bytes),
         Source::Mux(c) => {
             let (r, b) = mux::run_mux_vec(c);
@@ -185,6 +204,9 @@ pub fn oracle(ctx: &mut Ctx, case: &Case) -> Check {
             fail!(format!("c15:history-dependent:kind{}", c.kind), "call #{} {:?} after {} earlier calls returned [{}] but a fresh reader returns [{}]", i, c, i, got.chars().take(120).collect::<String>(), want.chars().take(120).collect::<String>());
         }
         let failed = got.starts_with("err") || got == "none" || got == "no such track";
+        if got.starts_with("err") && (got.contains("fill whole buffer") || got.contains("UnexpectedEof")) {
+            ctx.count("schedule:call-failed-at-io-level");
+        }
         if prev_failed && !failed {
             fail_then_ok = true;
         }
@@ -200,9 +222,10 @@ pub fn oracle(ctx: &mut Ctx, case: &Case) -> Check {
             h.write_u64(c.kind as u64 | (c.track as u64) << 8 | (c.id as u64) << 40);
         }
         ctx.nontrivial(h.finish());
-        ctx.sample("nontrivial", &serde_json::json!({"source": match &case.source { Source::Movie(_) => "reference-encoded movie", Source::Mux(_) => "muxer output", Source::Canned(n) => n.as_str() }, "file_len": bytes.len(), "calls": calls.iter().take(12).collect::<Vec<_>>(), "n_calls": calls.len()}));
+        ctx.sample("nontrivial", &serde_json::json!({"source": match &case.source { Source::Patched(..) => "movie with samples beyond the end of the file", Source::Movie(_) => "reference-encoded movie", Source::Mux(_) => "muxer output", Source::Canned(n) => n.as_str() }, "file_len": bytes.len(), "calls": calls.iter().take(12).collect::<Vec<_>>(), "n_calls": calls.len()}));
     }
     ctx.count(match &case.source {
+        Source::Patched(..) => "source:movie-with-unreadable-samples",
         Source::Movie(m) if !m.frags.is_empty() => "source:fragmented-movie",
         Source::Movie(_) => "source:table-movie",
         Source::Mux(_) => "source:muxer-output",
@@ -220,6 +243,7 @@ pub fn oracle(ctx: &mut Ctx, case: &Case) -> Check {
 pub fn case_strategy(max_calls: usize) -> impl Strategy<Value = Case> {
     let source = prop_oneof![
         4 => gen::table_movie(3, 24).prop_map(Source::Movie),
+        3 => (gen::table_movie(2, 10), any::<u16>(), any::<bool>()).prop_map(|(m, w, k)| Source::Patched(m, w, k)),
         3 => gen::frag_movie(3, 4, 5).prop_map(Source::Movie),
         3 => mux::mux_history(3, 24, 0.0).prop_map(Source::Mux),
         1 => prop_oneof![Just("minimal.mp4"), Just("extended_audio_object_type.mp4"), Just("minimal_init.mp4")].prop_map(|n| Source::Canned(n.to_string())),
